@@ -96,6 +96,12 @@ def variant_of(spec, sy, rnd):
     """the same pipeline with one user function replaced by another one (a different computation)"""
     v = copy.deepcopy(spec)
     ts = [d for d in v if d['t'] == 'transform']
+    # the same dataset listing its ids in another order (a column cache must not depend on it)
+    srcs = [d for d in v if d['t'] == 'source' and len(d['ids']) >= 2]
+    if srcs and any(d['t'] == 'columns' for d in v) and rnd.random() < 0.5:
+        d = rnd.choice(srcs)
+        d['ids'] = list(reversed(d['ids'])) if rnd.random() < 0.5 else rnd.sample(d['ids'], len(d['ids']))
+        return v
     # the same function bound under another keyword name, when there is one; else another function
     kw = [(t, f) for t in ts for f in sorted(t['fields']) if any('=' in a for a in t['fields'][f][1])]
     if kw and rnd.random() < 0.6:
@@ -127,6 +133,9 @@ def gen_ops(rnd, ids, fields, n_variants, spec, n_ops, allow_typed=True):
     typed = allow_typed and rnd.random() < 0.2
     if typed:
         keys = [1, 1.0, True, ids[0], 'zz']
+    elif allow_typed and rnd.random() < 0.15:
+        # distinct integers with equal Python hashes (hash(-1) == hash(-2), hash(0) == hash(2**61 - 1)): distinct keys
+        keys = [-1, -2, 0, 2 ** 61 - 1, 'zz']
     ram_layers = [i for i, d in enumerate(spec) if d['t'] == 'ram']
     syms = [d['fields'][f][0] for d in spec if d['t'] == 'transform' for f in d['fields']]
     for _ in range(n_ops):
